@@ -373,6 +373,16 @@ impl LruDiskCache {
         Ok(())
     }
 
+    /// Give up an entry coming from `LruDiskCache::prepare_add` without committing
+    /// it, releasing the space that was reserved for it. Merely dropping the entry
+    /// removes its temporary file but keeps the reservation.
+    pub fn abandon(&mut self, entry: LruDiskCacheAddEntry) {
+        if let Some(i) = self.pending.iter().position(|k| k == &entry.key) {
+            self.pending.remove(i);
+            self.pending_size -= entry.size;
+        }
+    }
+
     /// Return `true` if a file with path `key` is in the cache. Entries created
     /// by `LruDiskCache::prepare_add` but not yet committed return `false`.
     pub fn contains_key<K: AsRef<OsStr>>(&self, key: K) -> bool {
